@@ -34,8 +34,16 @@
 // subscription id, owner and monitoring mode, with item ids replaced by their
 // rank among the live item ids. Rank renaming is sound because item ids come
 // from a monotone counter and are used only as map keys (order-preserving
-// renaming commutes with every operation); subscription ids are NOT renamed
-// because the server derives new ones from len(Subs).
+// renaming commutes with every operation). Subscription ids are NOT
+// rank-renamed, because the server under test may derive new ones from the
+// live set (it does: len(Subs)+1); they are only shifted by `base` = (first
+// subscription id handed out in this replay) - 1, which is 0 for a len-based
+// server and the hidden counter for a counter-based one, and the state carries
+// `hw`, the highest (shifted) id handed out so far in the history. Two
+// histories with the same canonical state therefore leave a len-based server
+// with identical maps and a counter-based server with maps equal up to the
+// shift and the same next id; both have the same future. (hw splits some
+// states a len-based server cannot distinguish: less merging, still sound.)
 //
 // Oracle (no stronger than the statement): an id returned by a create is not
 // live in any session at that moment; an operation aimed at a foreign id does
@@ -123,19 +131,21 @@ func (s c32Snap) raw() string {
 	return b.String()
 }
 
-// canon: as raw, item ids replaced by their rank.
-func (s c32Snap) canon() string {
+// canon: subscription ids relative to base, item ids replaced by their rank,
+// plus the high-water mark of the subscription ids handed out in this history.
+func (s c32Snap) canon(base, hw uint32) string {
 	var b strings.Builder
 	for owner := 0; owner < 3; owner++ {
 		var ids []uint32
 		for id, o := range s.Subs {
 			if o == owner {
-				ids = append(ids, id)
+				ids = append(ids, id-base)
 			}
 		}
 		sort.Slice(ids, func(i, j int) bool { return ids[i] < ids[j] })
 		fmt.Fprintf(&b, "%c:%v ", 'A'+owner, ids)
 	}
+	fmt.Fprintf(&b, "hw=%d ", hw)
 	its := make([]uint32, 0, len(s.Items))
 	for id := range s.Items {
 		its = append(its, id)
@@ -143,7 +153,7 @@ func (s c32Snap) canon() string {
 	sort.Slice(its, func(i, j int) bool { return its[i] < its[j] })
 	for rank, id := range its {
 		it := s.Items[id]
-		fmt.Fprintf(&b, "#%d:s%d@%c/m%d ", rank, it.Sub, 'A'+it.Owner, it.Mode)
+		fmt.Fprintf(&b, "#%d:s%d@%c/m%d ", rank, it.Sub-base, 'A'+it.Owner, it.Mode)
 	}
 	return b.String()
 }
@@ -172,7 +182,12 @@ type c32World struct {
 	replays  int
 	rebuilds int
 	pre      c32Snap // state right before the last applied operation (same replay)
+	base     uint32  // first subscription id handed out in this replay, minus 1
+	baseSet  bool
+	hw       uint32 // highest subscription id handed out in this replay, relative to base
 }
+
+func (w *c32World) canon(sn c32Snap) string { return sn.canon(w.base, w.hw) }
 
 func newC32World() (*c32World, error) {
 	s, url, err := startServer(noneOpts(), nil)
@@ -228,6 +243,7 @@ func (w *c32World) snap() c32Snap {
 
 // reset brings the server back to the state of a new one (see the header).
 func (w *c32World) reset() error {
+	w.base, w.baseSet, w.hw = 0, false, 0
 	nsess := 0
 	for _, t := range w.tok {
 		if t != nil {
@@ -486,6 +502,14 @@ func (w *c32World) apply(o c32Op, direct bool) (c32Res, uint32, error) {
 			return res, id, fmt.Errorf("wire: %s", res.Detail)
 		}
 	}
+	if o.K == "CS" && res.good && len(res.IDs) == 1 {
+		if !w.baseSet {
+			w.base, w.baseSet = res.IDs[0]-1, true
+		}
+		if rel := res.IDs[0] - w.base; rel > w.hw {
+			w.hw = rel
+		}
+	}
 	if ok, why := waitQuiescent(); !ok {
 		return res, id, fmt.Errorf("server not quiescent after %v: %s", o, why)
 	}
@@ -609,7 +633,7 @@ func c32() {
 		depth = 6
 	}
 	depth = envInt("VERIF_C32_DEPTH", depth)
-	budget := 50 * time.Second
+	budget := 75 * time.Second
 	if evid.Thorough() {
 		budget = 9 * time.Minute
 	}
@@ -617,7 +641,7 @@ func c32() {
 	p := newPool("c32", evid.Workers(), nil)
 	defer p.close()
 	visited := map[string]c32Hist{}
-	frontier := []c32Frontier{{Hist: c32Hist{}, Canon: c32Snap{}.canon()}}
+	frontier := []c32Frontier{{Hist: c32Hist{}, Canon: c32Snap{}.canon(0, 0)}}
 	visited[frontier[0].Canon] = c32Hist{}
 	var states, transitions int64 = 1, 0
 	maxDepth, completeDepth := 0, 0
@@ -734,8 +758,8 @@ func c32Expand(w *c32World, f c32Frontier, rep *c32Reply) error {
 		return fmt.Errorf("replay %v: %v", f.Hist, err)
 	}
 	pre := w.snap()
-	if pre.canon() != f.Canon {
-		return fmt.Errorf("nondeterministic replay: history %v reached %q, recorded %q", f.Hist, pre.canon(), f.Canon)
+	if w.canon(pre) != f.Canon {
+		return fmt.Errorf("nondeterministic replay: history %v reached %q, recorded %q", f.Hist, w.canon(pre), f.Canon)
 	}
 	if f.Fresh {
 		if err := c32FreshCheck(f); err != nil {
@@ -769,7 +793,7 @@ func c32Expand(w *c32World, f c32Frontier, rep *c32Reply) error {
 			}
 			continue
 		}
-		postD := w.snap()
+		postD := w.canon(w.snap())
 		// the same transition over the wire
 		if err := w.replay(f.Hist); err != nil {
 			return fmt.Errorf("replay %v: %v", f.Hist, err)
@@ -781,10 +805,10 @@ func c32Expand(w *c32World, f c32Frontier, rep *c32Reply) error {
 		rec.Evals = 2
 		postW := w.snap()
 		rec.Res = resW
-		rec.Succ = postW.canon()
+		rec.Succ = w.canon(postW)
 		rec.Outcome = fmt.Sprintf("%s(%s): %s %v", c32Service[o.K], o.T, resW.Service, resW.Results)
-		if postD.canon() != postW.canon() || resD.Service != resW.Service || fmt.Sprint(resD.Results) != fmt.Sprint(resW.Results) {
-			rec.Viol = append(rec.Viol, [2]string{"direct-and-wire-differ/" + c32Service[o.K] + "/" + o.T, fmt.Sprintf("history %v: direct %+v -> %s; wire %+v -> %s", h, resD, postD.canon(), resW, postW.canon())})
+		if postD != rec.Succ || resD.Service != resW.Service || fmt.Sprint(resD.Results) != fmt.Sprint(resW.Results) {
+			rec.Viol = append(rec.Viol, [2]string{"direct-and-wire-differ/" + c32Service[o.K] + "/" + o.T, fmt.Sprintf("history %v: direct %+v -> %s; wire %+v -> %s", h, resD, postD, resW, rec.Succ)})
 		}
 		for _, v := range c32Judge(o, idW, w.pre, postW, resW) {
 			rec.Viol = append(rec.Viol, [2]string{v[0], fmt.Sprintf("%s; history %v; answer %+v", v[1], h, resW)})
@@ -804,7 +828,7 @@ func c32FreshCheck(f c32Frontier) error {
 	if err := w.replay(f.Hist); err != nil {
 		return fmt.Errorf("fresh replay %v: %v", f.Hist, err)
 	}
-	if got := w.snap().canon(); got != f.Canon {
+	if got := w.canon(w.snap()); got != f.Canon {
 		return fmt.Errorf("reset server and new server disagree on history %v: %q vs %q", f.Hist, f.Canon, got)
 	}
 	return nil
